@@ -566,6 +566,33 @@ theorem reconnection_is_accepted_afresh (st : NS) (peer : String) (id : Nat) (sr
     exact hfresh s (List.mem_filter.mp hs').1
   exact reconnect_elected (st.closeAll (st.sessionsOf peer)) peer id srv n hnone hfr
 
+/-- (every authenticated loser is stopped by the commit step itself) `commit_authenticated` names the
+candidate among the losers whenever the candidate does not survive — so the `ConnectionAuthenticated`
+handler, which stops every loser, stops a losing candidate too; the NodeServer does not rely on the
+session's own `CheckSession`, which cannot identify the caller when its (name, nonce) is shared
+(legacy nonce 0, repeated nonces: `check_session` then answers `NoOtherConnection`). End to end:
+engine `e-lts-legacy-peer`, clause `two-live-links-to-one-peer` on the LIVE session actors. -/
+theorem losing_candidate_is_stopped_by_the_commit (st : NS) (id : Nat) (st' : NS) (losers : List Nat)
+    (h : st.commit id = some (st', false, losers)) : id ∈ losers :=
+  commit_loser_includes_candidate st id st' losers h
+
+/-- … and in the two-node handshake model: after the `authA` step every session node A still holds
+authenticated and open — the candidate included — is one the election kept. -/
+theorem auth_step_keeps_only_the_elected (o : Ordering) (w : List Link) (a : Nat) (h : pendingA w a = true) :
+    activeA (stepAuthA o w a) =
+      (activeA (markA w a)).filter (fun c => (electA o (activeA (markA w a))).contains c.idA) := by
+  unfold stepAuthA
+  rw [if_pos h, activeA_closeLosers]
+
+/-- the legacy case: two server-side sessions of one peer with the legacy nonce; the second one
+authenticates, loses the tie-break, is named as loser — while its own `CheckSession` says
+`NoOtherConnection`. -/
+example :
+    let st : NS := { thisName := "b@host", sessions :=
+      [⟨1, true, some "a@host", none, true⟩, ⟨2, true, some "a@host", none, false⟩] }
+    (st.commit 2).map (fun r => (r.2.1, r.2.2)) = some (false, [2]) ∧
+    st.checkSession "a@host" 0 = .noOther := by decide
+
 /-- (stability) An elected set re-elects itself: a second election closes nothing more. -/
 theorem elected_set_is_stable (o : Ordering) (cs : List Cand) :
     elect o (pipeline o cs) = elect o cs := by
@@ -707,6 +734,8 @@ end C18
 #print axioms C18.unauthenticated_cannot_influence_ready
 #print axioms C18.unauthenticated_can_only_let_continue
 #print axioms C18.unauthenticated_cannot_veto_check_session
+#print axioms C18.losing_candidate_is_stopped_by_the_commit
+#print axioms C18.auth_step_keeps_only_the_elected
 #print axioms C18.closed_session_leaves_no_trace
 #print axioms C18.reconnection_is_elected
 #print axioms C18.reconnection_is_accepted_afresh
